@@ -10,7 +10,7 @@ MCConfigs ==
      binarymime |-> FALSE, dsn |-> FALSE] :
        t \in {<<FALSE, FALSE>>, <<TRUE, FALSE>>, <<TRUE, TRUE>>}, ia \in BOOLEAN, ab \in BOOLEAN }
 
-MCAlphabet == {"greet", "mail", "rcpt", "bdat", "simple", "quit", "auth", "starttls"}
+MCAlphabet == {"greet", "mail", "rcpt", "bdat", "simple", "quit", "auth", "starttls", "long", "bad"}
 
 DumpEdge ==
   PrintT(<<"EDGE", ToJson([cfg |-> cfg, src |-> st, osrc |-> obs, lbl |-> last', dst |-> st', odst |-> obs'])>>)
